@@ -713,6 +713,8 @@ func c02BadClass(name string) string {
 		return "snake_case"
 	case name == "valueUs" || name == "precision" || name == "timezone":
 		return "proto-only"
+	case name != "" && name[0] >= 'A' && name[0] <= 'Z':
+		return "type-name"
 	}
 	return "foreign-name"
 }
@@ -727,7 +729,8 @@ func c02BadNames(md protoreflect.MessageDescriptor) []string {
 		f, _, _ := c02MapKey(md, n+"X")
 		return f != nil
 	}
-	for _, cand := range []string{"birthDate", "noSuchElement", "effective", "linkId", "given"} {
+	// (incl. names of resource types and data types: below the root they are element names like any other, not type filters)
+	for _, cand := range []string{"birthDate", "noSuchElement", "effective", "linkId", "given", "Observation", "Patient", "Encounter", "HumanName", "Resource"} {
 		if !has(cand) && !(string(md.FullName()) == "google.fhir.r4.core.Reference" && cand == "reference") {
 			out = append(out, cand)
 		}
